@@ -40,6 +40,10 @@ def c06(res, thorough):
         tie_A(res, "queue", "msqueue", [{"args": ["--mode", "mixed", "--threads", "4", "--ops", "4", "--variant", v], "cases": 10000 if thorough else 1200},
                                         {"args": ["--mode", "enum2" if thorough else "enum1", "--threads", "2", "--ops", "3", "--variant", v], "cases": 10 if thorough else 5}])
     tie_H(res, "queue", hist_runs(thorough, 3, 4, (22, 44), (3000, 40000)), ignore_oracle=FC_ORACLE)
+    # the queues without a machine: three-party races (e.g. two enqueuers losing the same tail CAS while the winner has not
+    # swung the tail yet: BasketQueue's basket) need several preemptions right at CAS operations - CAS-biased schedules, 4 threads
+    for v in ("basket_hp", "ibasket_hp", "moir_hp", "imoir_hp", "optimistic_hp", "ioptimistic_hp"):
+        tie_H(res, "queue", [{"args": ["--mode", "cas", "--threads", "4", "--ops", "3", "--variant", v], "cases": 12000 if thorough else 1500}], label="queue-cas")
 
 
 def c07(res, thorough):
@@ -207,7 +211,11 @@ def c15(res, thorough):
 
 
 def c16(res, thorough):
-    setmap_check(res, thorough, "C16", "striped")
+    # Lock-based containers retry with try-lock / back-off (cuckoo takes its two cell locks this way): under an unfair
+    # deterministic schedule two threads can stay phase-locked until the step budget runs out.  C16 is about linearizability,
+    # not progress under unfair schedules: only a real deadlock (nobody can move) counts; budget exhaustion is recorded in
+    # the evidence (hang_status).  First seen as a false alarm: striped client, cmap_ulist_striping, seed 1 case 2044 (pct).
+    setmap_check(res, thorough, "C16", "striped", hang_is_violation="deadlock")
 
 
 def oracle_check(res, thorough, prop, client, mnv, only=None, ignore=None, threads=3, ops=4, mixed=(3000, 40000), enum_cases=(10, 20), extra=(), variants=None):
